@@ -10,80 +10,6 @@ open MindsVerif.Walk
 def isP (P : Nat) (v : Visit) : Bool := match v.node with | some m => m.cls == P | none => false
 def nP (P : Nat) (log : List Visit) : Nat := (log.filter (isP P)).length
 
-theorem fill_trace (P C : Nat) : ∀ (log : List Visit) (s s' : FillSt), Trace (cbFill P C) s log s' →
-    nP P log ≤ s.vals.length →
-    s'.vals = s.vals.drop (nP P log) ∧ s'.failed = s.failed ∧
-    (log.filter (isP P)).map (fun v => v.ans.map Node.tag) = (s.vals.take (nP P log)).map some ∧
-    (∀ v ∈ log, isP P v = false → v.ans = none) ∧
-    (∀ v ∈ log, isP P v = true → ∃ m x, v.node = some m ∧ v.ans = some (.mk C m.slot x m.kids)) := by
-  intro log s s' h
-  induction h with
-  | nil s => intro _; simp [nP]
-  | @cons s s1 s2 v l hc _ ih =>
-    intro hle
-    cases hv : v.node with
-    | none =>
-      rw [hv] at hc
-      simp only [cbFill, Prod.mk.injEq] at hc
-      have hp : isP P v = false := by simp [isP, hv]
-      have hn : nP P (v :: l) = nP P l := by simp [nP, hp]
-      rw [hn] at hle ⊢
-      rw [← hc.2] at ih
-      obtain ⟨i1, i2, i3, i4, i5⟩ := ih hle
-      refine ⟨i1, i2, ?_, ?_, ?_⟩
-      · simp [hp, i3]
-      · intro w hw hpw
-        cases hw with
-        | head => exact hc.1.symm
-        | tail _ hm => exact i4 w hm hpw
-      · intro w hw hpw
-        cases hw with
-        | head => simp [hp] at hpw
-        | tail _ hm => exact i5 w hm hpw
-    | some m =>
-      rw [hv] at hc
-      by_cases hm : m.cls = P
-      · have hp : isP P v = true := by simp [isP, hv, hm]
-        have hn : nP P (v :: l) = nP P l + 1 := by simp [nP, hp]
-        rw [hn] at hle ⊢
-        cases hvals : s.vals with
-        | nil => rw [hvals] at hle; simp at hle
-        | cons v0 vs =>
-          simp only [cbFill, hm, if_true, hvals, Prod.mk.injEq] at hc
-          rw [hvals] at hle
-          have hle' : nP P l ≤ s1.vals.length := by rw [← hc.2]; simpa using hle
-          obtain ⟨i1, i2, i3, i4, i5⟩ := ih hle'
-          rw [← hc.2] at i1 i2 i3
-          refine ⟨by simpa using i1, i2, ?_, ?_, ?_⟩
-          · have i3' : List.map (fun v => v.ans.map Node.tag) (List.filter (isP P) l)
-                = List.map some (List.take (nP P l) vs) := by simpa using i3
-            rw [List.filter_cons, if_pos hp, List.map_cons, List.take_succ_cons, List.map_cons, i3', ← hc.1]
-            rfl
-          · intro w hw hpw
-            cases hw with
-            | head => simp [hp] at hpw
-            | tail _ hm' => exact i4 w hm' hpw
-          · intro w hw hpw
-            cases hw with
-            | head => exact ⟨m, v0, hv, hc.1.symm⟩
-            | tail _ hm' => exact i5 w hm' hpw
-      · have hp : isP P v = false := by simp [isP, hv, hm]
-        have hn : nP P (v :: l) = nP P l := by simp [nP, hp]
-        simp only [cbFill, hm, if_false, Prod.mk.injEq] at hc
-        rw [hn] at hle ⊢
-        rw [← hc.2] at ih
-        obtain ⟨i1, i2, i3, i4, i5⟩ := ih hle
-        refine ⟨i1, i2, ?_, ?_, ?_⟩
-        · simp [hp, i3]
-        · intro w hw hpw
-          cases hw with
-          | head => exact hc.1.symm
-          | tail _ hm' => exact i4 w hm' hpw
-        · intro w hw hpw
-          cases hw with
-          | head => simp [hp] at hpw
-          | tail _ hm' => exact i5 w hm' hpw
-
 theorem find_trace (P : Nat) : ∀ (log : List Visit) (s s' : List Node), Trace (cbFind P) s log s' →
     s'.map some = s.map some ++ (log.filter (isP P)).map Visit.node := by
   intro log s s' h
@@ -127,13 +53,111 @@ theorem nP_what (P : Nat) (l : List Visit) : nP P l = ((l.map Visit.what).filter
   have := congrArg List.length (filter_isP_what P l)
   simpa [nP] using this
 
-theorem agree_find_fill (P C : Nat) : Agree (cbFind P) (cbFill P C) := by
+theorem agree_find_fill (P C : Nat) (values : List (Nat × Nat)) : Agree (cbFind P) (cbFillMap P C values) := by
   intro s s' n a b pq
   cases n with
-  | none => simp [cbFind, cbFill]
+  | none => simp [cbFind, cbFillMap]
   | some m =>
     by_cases hm : m.cls = P
-    · cases hv : s'.vals <;> simp [cbFind, cbFill, hm, hv]
-    · simp [cbFind, cbFill, hm]
+    · cases hv : values.lookup m.tag <;> simp [cbFind, cbFillMap, hm, hv]
+    · simp [cbFind, cbFillMap, hm]
+
+/-! ### the stable sort -/
+
+theorem ins_perm {α : Type} (le : α → α → Bool) (a : α) : ∀ l, (ins le a l).Perm (a :: l)
+  | [] => .refl _
+  | b :: l => by
+    simp only [ins]
+    split
+    · exact .refl _
+    · exact ((ins_perm le a l).cons b).trans (.swap a b l)
+
+theorem isort_perm {α : Type} (le : α → α → Bool) : ∀ l, (isort le l).Perm l
+  | [] => .refl _
+  | a :: l => (ins_perm le a _).trans ((isort_perm le l).cons a)
+
+theorem ins_sorted {α : Type} (le : α → α → Bool) (htr : ∀ a b c, le a b = true → le b c = true → le a c = true)
+    (htot : ∀ a b, le a b = false → le b a = true) (a : α) :
+    ∀ l, l.Pairwise (fun x y => le x y = true) → (ins le a l).Pairwise (fun x y => le x y = true)
+  | [], _ => by simp [ins]
+  | b :: l, h => by
+    have hb := List.pairwise_cons.mp h
+    simp only [ins]
+    cases hab : le a b with
+    | true =>
+      simp only [if_true]
+      refine List.pairwise_cons.mpr ⟨?_, h⟩
+      intro y hy
+      cases hy with
+      | head => exact hab
+      | tail _ hm => exact htr a b y hab (hb.1 y hm)
+    | false =>
+      simp only [Bool.false_eq_true, if_false]
+      refine List.pairwise_cons.mpr ⟨?_, ins_sorted le htr htot a l hb.2⟩
+      intro y hy
+      have := (ins_perm le a l).mem_iff.mp hy
+      cases this with
+      | head => exact htot a b hab
+      | tail _ hm => exact hb.1 y hm
+
+theorem isort_sorted {α : Type} (le : α → α → Bool) (htr : ∀ a b c, le a b = true → le b c = true → le a c = true)
+    (htot : ∀ a b, le a b = false → le b a = true) : ∀ l, (isort le l).Pairwise (fun x y => le x y = true)
+  | [] => by simp [isort]
+  | a :: l => ins_sorted le htr htot a _ (isort_sorted le htr htot l)
+
+theorem sortByText_perm (σ : Schema) (q : Node) (ps : List Node) : (sortByText σ q ps).Perm ps := by
+  simp only [sortByText]
+  split
+  · exact .refl _
+  · split
+    · exact isort_perm _ _
+    · exact .refl _
+
+/-- when every found placeholder is rendered, the result is ordered by rendered position -/
+theorem sortByText_sorted (σ : Schema) (q : Node) (ps : List Node)
+    (h : ps.all (fun p => (textOrder σ q).contains p.tag) = true) :
+    (sortByText σ q ps).Pairwise (fun a b => rank (textOrder σ q) a.tag ≤ rank (textOrder σ q) b.tag) := by
+  have key := isort_sorted (fun (a b : Node) => decide (rank (textOrder σ q) a.tag ≤ rank (textOrder σ q) b.tag))
+    (by intro a b c h1 h2; simp only [decide_eq_true_eq] at *; omega)
+    (by intro a b h1; simp only [decide_eq_false_iff_not, decide_eq_true_eq] at *; omega) ps
+  simp only [sortByText, h, if_true]
+  split
+  · -- fewer than two elements
+    rename_i hl
+    match ps, hl with
+    | [], _ => exact .nil
+    | [a], _ => exact List.pairwise_cons.mpr ⟨by simp, .nil⟩
+    | _ :: _ :: _, hl => simp at hl; omega
+  · exact key.imp (by intro a b hab; simpa using hab)
+
+/-- in a faithful trace of a stateless visitor every answer is the visitor's answer to that call -/
+theorem trace_unit_mem (cb : Cb Unit) : ∀ (log : List Visit) (s s' : Unit), Trace cb s log s' →
+    ∀ v ∈ log, (cb () v.node v.isTable v.isTarget v.pq).1 = v.ans := by
+  intro log s s' h
+  induction h with
+  | nil => intro v hv; cases hv
+  | @cons s s1 s2 v l hc _ ih =>
+    intro w hw
+    cases hw with
+    | head => rw [hc]
+    | tail _ hm => exact ih w hm
+
+/-- looking up the i-th key of a duplicate-free key list in the zip gives the i-th value -/
+theorem lookup_zip : ∀ (keys vs : List Nat), keys.Nodup → keys.length ≤ vs.length →
+    keys.map (fun k => (k, (keys.zip vs).lookup k)) = (keys.zip vs).map (fun kv => (kv.1, some kv.2))
+  | [], _, _, _ => by simp
+  | k :: keys, [], _, h => by simp at h
+  | k :: keys, v :: vs, hnd, h => by
+    have hk : k ∉ keys := (List.nodup_cons.mp hnd).1
+    have ih := lookup_zip keys vs (List.nodup_cons.mp hnd).2 (by simpa using h)
+    simp only [List.map_cons, List.zip_cons_cons, List.lookup_cons, beq_self_eq_true]
+    congr 1
+    rw [← ih]
+    apply List.map_congr_left
+    intro k' hk'
+    have : (k' == k) = false := by
+      simp only [beq_eq_false_iff_ne, ne_eq]
+      intro e; exact hk (e ▸ hk')
+    simp [this]
 
 end MindsVerif.Params
